@@ -44,3 +44,40 @@ Proof. exact walk_unchecked_refuted. Qed.
 Theorem C15_nonvacuous :
   open_walk sd_diamond 0 10 = Loop [3; 2; 1; 0] 3 /\ open_walk_unchecked sd_diamond 0 10 = Finished [3; 3; 2; 1; 0].
 Proof. exact walk_checked_rejects_diamond. Qed.
+
+(* ---- the directory walk on ANY bytes: Model/Parse.v (faithful model of _walk_directories with the repaired overlap check, 863c802; parse_file reads the whole file, short at its end).  For EVERY byte string and EVERY root pointer -- no well-formedness at all: the walk terminates within a fuel bound LINEAR in the length of the file; when it succeeds, the number of records and of Inodes it created is linear in the length of the file; every failure is one of the nine raise points, each a documented library exception (builtin exception types are converted in _open_fp_checked).  The walk before the overlap check is refuted: 304 records from a 3-block image. *)
+From PV.Base Require Prim ListX.
+From PV.Gen Require GenConst GenFun.
+From PV.Model Require Codec Pack Master Parse.
+From PV.Proofs Require MasterPack MasterChecker ParseShareWalk ParseTotal ParseTotalInst.
+Section ParseTotalStatements.
+Import PV.Base.Prim PV.Base.ListX PV.Gen.GenConst PV.Gen.GenFun PV.Model.Codec PV.Model.Pack PV.Model.Master PV.Model.Parse PV.Proofs.MasterPack PV.Proofs.MasterChecker PV.Proofs.ParseShareWalk PV.Proofs.ParseTotal PV.Proofs.ParseTotalInst.
+Local Open Scope Z_scope.
+Theorem C15_directory_walk_terminates_on_any_bytes bytes ptr re rl :
+  parse_file (ps_file_fuel bytes) bytes ptr re rl <> PFuel.
+Proof. first [exact (@parse_file_total_any_image) | apply (@parse_file_total_any_image) | intros; eapply (@parse_file_total_any_image); eassumption]. Qed.
+
+Theorem C15_directory_walk_work_is_linear_in_the_file bytes fuel ptr re rl g : parse_file fuel bytes ptr re rl = POk g ->
+  (33 * length (ps_all_recs g) <= length bytes + 2048)%nat /\
+  (33 * length (g_inodes g) <= length bytes + 2048)%nat.
+Proof. first [exact (@parse_work_linear) | apply (@parse_work_linear) | intros; eapply (@parse_work_linear); eassumption]. Qed.
+
+Theorem C15_directory_walk_terminates_on_any_chunk_map img ptr isz re rl : parse (ps_img_fuel img) img ptr isz re rl <> PFuel.
+Proof. first [exact (@parse_total_any_image) | apply (@parse_total_any_image) | intros; eapply (@parse_total_any_image); eassumption]. Qed.
+
+Theorem C15_walk_before_the_overlap_check_refuted :
+  zlen (ps_chain 3 50) = 6144 /\ ps_chain_records 3 50 = Some 304%nat /\ 33 * 304 > 6144 + 2048 /\
+  ps_chain_records 1 10 = Some 12%nat /\ ps_chain_records 2 10 = Some 33%nat /\
+  ps_chain_records 3 10 = Some 64%nat /\ ps_chain_records 4 10 = Some 105%nat /\
+  ps_chain_parse true 3 50 = PInvalid 9 /\ ps_chain_parse true 2 10 = PInvalid 9.
+Proof. first [exact (@parse_work_bounded_refuted_old) | apply (@parse_work_bounded_refuted_old) | intros; eapply (@parse_work_bounded_refuted_old); eassumption]. Qed.
+
+Theorem C15_walk_fails_only_at_documented_raise_points fixed fuel rd ptr isz re rl :
+  match ps_parse_gen fixed fuel rd ptr isz re rl with
+  | PInvalid w => exists e, ps_exn_of w = Some e       (* a PyCdlibInvalidISO, or for 4 a PyCdlibInvalidInput *)
+  | PUnsupported w => 1 <= w <= 3                     (* outside the modelled fragment *)
+  | _ => True
+  end.
+Proof. first [exact (@parse_only_documented_errors) | apply (@parse_only_documented_errors) | intros; eapply (@parse_only_documented_errors); eassumption]. Qed.
+
+End ParseTotalStatements.
